@@ -25,6 +25,7 @@ func main() {
 	os.Setenv("GOFLAGS", "-mod=mod")
 	os.Setenv("GOPROXY", "off")
 	os.Unsetenv("GOSUMDB")
+	registerGramChecks()
 	if len(os.Args) < 3 {
 		fmt.Fprintln(os.Stderr, "usage: vcheck run <property> [--tier quick|thorough] [--keep] | vcheck replay <file>")
 		os.Exit(2)
@@ -91,6 +92,11 @@ func cmdRun(prop string, args []string) int {
 		return 3
 	}
 	c.Known = known
+	if prop == "FAMILY" {
+		fn(c)
+		ws.Close()
+		return 0
+	}
 	if err := fn(c); err != nil {
 		c.inconclusive("check could not run: %v", err)
 	}
